@@ -16,10 +16,11 @@ use crate::engine::*;
 use crate::kinds::*;
 use crate::refnat::RefNat;
 
-pub const TARGETS: &[(&str, &str)] = &[("dddmp_import", "C15"), ("parsers", "C18"), ("simplify", "C18"), ("rawtable", "C17"), ("natural", "C12")];
+pub const TARGETS: &[(&str, &str)] = &[("history", "C05"), ("dddmp_import", "C15"), ("parsers", "C18"), ("simplify", "C18"), ("rawtable", "C17"), ("natural", "C12")];
 
 pub fn run_target(name: &str, data: &[u8]) -> Result<(), String> {
     match name {
+        "history" => history(data),
         "dddmp_import" => dddmp_import(data),
         "parsers" => parsers(data),
         "simplify" => simplify(data),
@@ -292,8 +293,96 @@ pub fn write_seeds(dir: &str) {
         }
     }
     // structured targets: a few short inputs so that the first executions are not all empty
+    put("history", "seed-bdd".into(), vec![0, 1, 0, 0, 1, 0x80, 0, 4, 0, 0, 0x80, 0, 23, 26, 0, 1, 0, 2, 0, 3, 0, 4, 0, 5, 0, 6, 0, 7, 0, 8, 0, 0x1f, 5, 0, 0, 0xff, 0, 29, 20, 0, 0, 23]);
+    put("history", "seed-zbdd".into(), vec![2, 1, 0, 0, 2, 0x40, 0, 36, 0, 0, 0xc0, 0, 15, 0, 0, 0, 3, 0, 4, 24, 28, 0, 0]);
     put("rawtable", "seed-0".into(), vec![0, 0, 1, 0, 2, 8, 1, 12, 2, 15, 3, 21, 0, 3]);
     put("rawtable", "seed-1".into(), vec![0xc1, 0, 1, 0, 9, 0, 17, 8, 9, 17, 12, 17, 18, 1, 12, 1]);
     put("simplify", "seed-0".into(), vec![2, 3, 8, 4, 0, 4, 1, 9, 12, 0, 13, 1, 10, 4, 1, 6, 0, 1, 2]);
     put("natural", "seed-0".into(), vec![2, 5, 1, 2, 3, 4, 5, 6, 7, 8, 1, 1, 0, 3, 1, 64, 2, 0]);
+}
+
+// --------------------------------------------------------------------------------------------
+// C01/C03/C05: operation histories on ONE persistent manager per kind (5 variables), all audits
+// after every step; afterwards every handle is dropped and a collection must return the manager
+// to its initial node count. add_vars is not part of this target (the manager would grow).
+// --------------------------------------------------------------------------------------------
+
+const HN: u32 = 5;
+thread_local! {
+    static H_BDD: RefCell<Option<MRef<BddK>>> = const { RefCell::new(None) };
+    static H_BCDD: RefCell<Option<MRef<BcddK>>> = const { RefCell::new(None) };
+    static H_ZBDD: RefCell<Option<MRef<ZbddK>>> = const { RefCell::new(None) };
+}
+
+pub fn decode_history(data: &[u8]) -> (u8, Vec<crate::hist::Op>) {
+    use crate::hist::Op;
+    use crate::model::BINOPS;
+    let mut r = Rd(data, 0);
+    let sel = r.u8();
+    let mut ops = vec![];
+    let mut u16_ = |r: &mut Rd| (r.u8() as u16) << 8 | r.u8() as u16;
+    while r.left() > 0 && ops.len() < 60 {
+        let b = r.u8();
+        let op = match b % 32 {
+            0 => Op::Const(b & 32 != 0),
+            1 | 2 => Op::Var(u16_(&mut r)),
+            3 => Op::NotVar(u16_(&mut r)),
+            4..=9 => Op::Bin(BINOPS[(b >> 5) as usize % 8], u16_(&mut r), u16_(&mut r)),
+            10 => Op::Not(u16_(&mut r)),
+            11 | 12 => Op::Ite(u16_(&mut r), u16_(&mut r), u16_(&mut r)),
+            13 => Op::Quant(b >> 5, u16_(&mut r), u16_(&mut r)),
+            14 => Op::ApplyQuant(b >> 5, BINOPS[r.u8() as usize % 8], u16_(&mut r), u16_(&mut r), u16_(&mut r)),
+            15 => Op::Restrict(u16_(&mut r), u16_(&mut r), u16_(&mut r)),
+            16 => Op::NewSubst(b >> 5, u16_(&mut r), vec![u16_(&mut r), u16_(&mut r)]),
+            17 => Op::Subst(b >> 5, u16_(&mut r)),
+            18 => Op::Cofactor(u16_(&mut r), b & 32 != 0),
+            19 => Op::Clone(u16_(&mut r)),
+            20 | 21 => Op::Drop(u16_(&mut r)),
+            22 => Op::DropAll,
+            23 | 24 => Op::Gc,
+            25 => Op::Churn(r.u8()),
+            26 | 27 => Op::SetOrder((0..8).map(|_| u16_(&mut r)).collect(), u16_(&mut r), b & 32 != 0),
+            28 => Op::Rebuild(u16_(&mut r)),
+            29 => Op::Repeat,
+            30 => Op::BinPair(BINOPS[(b >> 5) as usize % 8], BINOPS[r.u8() as usize % 8], u16_(&mut r), u16_(&mut r)),
+            _ => Op::SubstAlt(b >> 5, r.u8(), u16_(&mut r)),
+        };
+        ops.push(op);
+    }
+    (sel, ops)
+}
+
+pub fn history(data: &[u8]) -> Result<(), String> {
+    use crate::hist::{Checks, Hist};
+    let (sel, ops) = decode_history(data);
+    let checks = Checks { canon: true, structure: true, rc: true, node_count: true };
+    macro_rules! go {
+        ($K:ty, $M:ident) => {{
+            $M.with(|m| {
+                let mut m = m.borrow_mut();
+                let mr = m.get_or_insert_with(|| {
+                    let order: Vec<u32> = (0..HN).collect();
+                    crate::build::mk_manager::<$K>(HN, &order, 1 << 14, 1 << 8, 1)
+                });
+                let base = if <$K>::KIND == crate::model::BKind::Zbdd { HN as usize } else { 0 };
+                let r = {
+                    let mut h = Hist::<$K>::with_manager(mr.clone(), HN, checks);
+                    std::panic::catch_unwind(std::panic::AssertUnwindSafe(|| h.run(&ops))).unwrap_or_else(|e| Err(format!("history-panic: {}", panic_msg(&e))))
+                    // h (pool, substitutions) is dropped here
+                };
+                r?;
+                <$K>::gc(mr);
+                let left = <$K>::num_inner_nodes(mr);
+                if left != base {
+                    return Err(format!("baseline-after-history: after dropping every handle and gc() the manager holds {left} inner nodes, initially {base}"));
+                }
+                Ok(())
+            })
+        }};
+    }
+    match sel % 3 {
+        0 => go!(BddK, H_BDD),
+        1 => go!(BcddK, H_BCDD),
+        _ => go!(ZbddK, H_ZBDD),
+    }
 }
